@@ -247,6 +247,17 @@ def t_ite(c: Term, a: Term, b: Term) -> Term:
             return t_or(t_not(c), a)
         if b == FALSE:
             return t_and(c, a)
+    if c[0] == "not" and c[1][0] == "cmp":
+        return t_ite(c[1], b, a)
+    if c[0] == "cmp" and c[1] in (">", ">=") and a[0] in ("lin", "attr", "call", "sym", "sub", "item", "max", "min") and b[0] in ("lin", "attr", "call", "sym", "sub", "item", "max", "min"):
+        # ``a if a > b else b`` is max(a, b); ``a if b > a else b`` is min(a, b)
+        try:
+            if t_add(a, b, -1) == c[2]:
+                return ("max", tuple(sorted([a, b], key=repr)))
+            if t_add(b, a, -1) == c[2]:
+                return ("min", tuple(sorted([a, b], key=repr)))
+        except Exception:
+            pass
     return ("ite", c, a, b)
 
 
@@ -1025,10 +1036,18 @@ class Evaluator:
 
     def unpack(self, v: Term, n: int) -> Optional[List[Term]]:
         """the n components of a value that is unpacked: a display, or a NamedTuple built on the spot (field order)"""
-        while v[0] == "var" and len(v) == 4 and v[3][0] in ("tuple", "list", "new"):
+        while v[0] == "var" and len(v) == 4 and v[3][0] in ("tuple", "list", "new", "comp"):
             v = v[3]
         if v[0] in ("tuple", "list") and len(v[1]) == n and not any(x[0] == "star" for x in v[1]):
             return list(v[1])
+        if v[0] == "comp" and len(v[3]) == 1 and not v[3][0][1]:
+            dom = v[3][0][0]
+            while dom[0] == "var" and len(dom) == 4:
+                dom = dom[3]
+            if dom[0] in ("tuple", "list") and len(dom[1]) == n and not any(x[0] == "star" for x in dom[1]):
+                bs = subterms(v[2], lambda x: x[0] == "bound" and isinstance(x[1], int) and x[3] == show(v[3][0][0]))
+                if len(bs) <= 1:
+                    return [subst(v[2], {bs[0]: item}) if bs else v[2] for item in dom[1]]
         if v[0] == "new":
             c = self.model.maybe_cls(v[1])
             if c is not None and is_named_tuple(c):
